@@ -9,6 +9,7 @@
 // (assumed; IntSet::is_empty is proved in U14.3). Entry::design_space_intersects (a for loop over a HashMap) is assumed.
 use vstd::prelude::*;
 verus! {
+//@prelude std_combinators
 
 #[verifier::external_body] #[verifier::accept_recursive_types(T)] pub struct IntSet<T> { _p: core::marker::PhantomData<T> }
 #[verifier::external_body] #[verifier::accept_recursive_types(T)] pub struct BTreeSet<T> { _p: core::marker::PhantomData<T> }
